@@ -217,7 +217,31 @@ class Env:
         self.protos = {}
         for name, on_data in (("adv", self.adv._on_data), ("search", self.search._on_data), ("ladv", self.l_adv._on_data),
                               ("lsearch", self.l_search._on_data), ("resp", self.responder._on_data)):
-            p = ssdp.SsdpProtocol(self.loop, on_data=on_data)
+            # the protocol's constructor configuration is a dimension of the case: the endpoint's `_on_data` is reached through
+            # `on_data`, through `async_on_data` (a coroutine wrapper; what it raises is reported like a raise of the receive
+            # path), or through `on_data` with a second, counting `async_on_data` next to it ("both": each must get every message)
+            self.pcfg = recipe.get("proto", "on")
+            self.dl = [0, 0]
+            self.task_exc: List[BaseException] = []
+
+            def sync_sink(rl, h, _f=on_data):
+                env.dl[0] += 1
+                _f(rl, h)
+
+            async def async_sink(rl, h, _f=on_data):
+                env.dl[1] += 1
+                if env.pcfg == "async":
+                    try:
+                        _f(rl, h)
+                    except Exception as e:  # noqa: BLE001 - reported by the harness as the escaping exception
+                        env.task_exc.append(e)
+
+            kw: Dict[str, Any] = {}
+            if self.pcfg in ("on", "both"):
+                kw["on_data"] = sync_sink
+            if self.pcfg in ("async", "both"):
+                kw["async_on_data"] = async_sink
+            p = ssdp.SsdpProtocol(self.loop, **kw)
             p.transport = FakeTransport()  # type: ignore[assignment]
             self.protos[name] = p
 
@@ -225,7 +249,7 @@ class Env:
         d = self.device
         devs = lst(f"{ts(x.udn)}={ts(x.device_type)}" for x in d.all_devices)
         svcs = lst(ts(s.service_type) for s in d.all_services)
-        return f"cfg target={ts(target_host)} root={ts(d.udn)} devs={devs} svcs={svcs} always=0"
+        return f"cfg target={ts(target_host)} root={ts(d.udn)} devs={devs} svcs={svcs} always=0 proto={self.pcfg}"
 
     def close(self) -> None:
         try:
@@ -279,13 +303,18 @@ def _run_recipe(ctx: Ctx, recipe: Dict[str, Any], cid: str) -> Case:
             before = sorted(tracker.devices)
             c0, s0, t0 = env.count, len(env.rsock.sent), len(env.stub.timers)
             del env.cbs[:]
+            del env.task_exc[:]
+            env.dl[0] = env.dl[1] = 0
             tsent0 = sum(len(p.transport.sent) for p in env.protos.values())
             raised = "-"
             try:
                 proto.datagram_received(data, src)
-                if env.async_mode:
+                if env.async_mode or env.pcfg != "on":
                     env.loop.run_until_complete(asyncio.sleep(0))
                     env.loop.run_until_complete(asyncio.sleep(0))
+                    env.loop.run_until_complete(asyncio.sleep(0))
+                if env.task_exc:
+                    raise env.task_exc.pop()
             except Exception as e:  # noqa: BLE001 - the escaping exception is the observation
                 raised = exc_token(e)
             cbn = env.count - c0
@@ -297,10 +326,11 @@ def _run_recipe(ctx: Ctx, recipe: Dict[str, Any], cid: str) -> Case:
             lines.append(f"dg {ep} {tb(data)} {tok_addr(src)} {tok_addr(local) if local else 'N'} {env.clock}{outside}")
             lines.append(f"eff raised={raised} cb={cbn} sends={sends} timers={timers} devs={devs} "
                          f"next={'N' if nx is None else us(nx)} before={lst(ts(k) for k in before)} "
-                         f"after={lst(ts(k) for k in sorted(tracker.devices))} cbs={lst(env.cbs)}")
+                         f"after={lst(ts(k) for k in sorted(tracker.devices))} cbs={lst(env.cbs)} dl={env.dl[0]}:{env.dl[1]}")
             tags.add("ep:" + ep)
             if recipe.get("debug"):
                 tags.add("log:debug")
+            tags.add("proto:" + env.pcfg)
             if tag:
                 tags.add("fam:" + tag)
             if raised != "-":
@@ -638,7 +668,8 @@ def gen_part(ctx: Ctx, kind: str, n: int, prefix: str) -> List[Case]:
     cases: List[Case] = []
 
     def add(ops, target="", cbm=None):
-        rec = {"ops": ops, "target": target, "cb": cbm or rng.choice(["sync", "async"]), "debug": rng.random() < 0.5}
+        rec = {"ops": ops, "target": target, "cb": cbm or rng.choice(["sync", "async"]), "debug": rng.random() < 0.5,
+               "proto": rng.choice(["on", "on", "async", "both", "both"])}
         cases.append(run_recipe(ctx, rec, f"{prefix}{len(cases)}"))
 
     if kind == "targeted":
